@@ -350,6 +350,7 @@ var trustedBase = []string{
 	"single-threaded execution of each function (locks, goroutines, channels not modelled)",
 	"extern contracts for library functions (listed under assumptions as 'extern contract: …')",
 	"fold-over-a-set equations for __count and the duplicate-free-enumeration rule for __enum",
+	"the Store interface is used through its contracts over a ghost view (events, heads, rounds, frames, blocks, peer sets): a read returns the object last written under the key. InmemStore's round/block/frame/event tables are verified against them; for BadgerStore this holds for cache hits, while after eviction it returns an equal copy decoded from the database (database behaviour has no contract)",
 }
 
 func writeEvidence(prop, tier string, seed int, wall float64, recs []obRecord, nObl, nDis int, funcs []string, assumed map[string]bool, bySolver map[string]int, violations int, spec *PropSpec, extra map[string]interface{}) {
